@@ -399,6 +399,20 @@ def apply_edit(sf, op, encoding):
             ch = sf.charts[op[1] % len(sf.charts)]
             if isinstance(ch, SMChart):
                 ch.extradata = None if op[2] is None else [pick(a, encoding) for a in op[2]]
+    elif kind == "chart_extra_inplace":
+        # edit the live extradata list of an SM chart in place (append / replace the first component / drop the last)
+        if len(sf.charts):
+            ch = sf.charts[op[1] % len(sf.charts)]
+            if isinstance(ch, SMChart):
+                v = pick(op[3], encoding)
+                if ch.extradata is None:
+                    ch.extradata = [v]
+                elif op[2] == "append" or not ch.extradata:
+                    ch.extradata.append(v)
+                elif op[2] == "set0":
+                    ch.extradata[0] = v
+                else:
+                    ch.extradata.pop()
     elif kind == "charts_reverse":
         sf.charts.reverse()
     elif kind == "charts_assign":
@@ -782,6 +796,7 @@ def s_script(suffix, max_ops=4, none_values=True):
     ]
     if suffix == ".sm":
         ops.append(st.tuples(st.just("chart_extra"), idx, st.one_of(st.none(), st.lists(alts, min_size=1, max_size=2))))
+        ops.append(st.tuples(st.just("chart_extra_inplace"), idx, st.sampled_from(["append", "append", "set0", "pop"]), alts))
     if none_values:
         ops.append(st.tuples(st.just("none"), st.sampled_from([k for k in EDIT_KEYS if k not in MULTI_VALUE])))
     return st.lists(st.one_of(*ops).map(list), max_size=max_ops)
